@@ -60,11 +60,25 @@ Fixpoint grpc_calls (codes : list Z) (retries_left : nat) (n : Z) : Z * Z :=
       else (n + 1, c)
   end.
 
+(* a retry policy configured with WithRandomDelay(lo, hi) besides the delay function -- written (lo, -hi) in the case --
+   waits the Retry-After when the response gives one and a duration in [lo, hi] otherwise *)
+Fixpoint waits_ok (lo hi : Z) (script : list attempt_result) (waits : list Z) : bool :=
+  match waits, script with
+  | [], _ => true
+  | d :: waits', a :: script' =>
+      (if http_delay a =? -1 then (lo <=? d) && (d <=? hi) else d =? Z.max 0 (http_delay a)) && waits_ok lo hi script' waits'
+  | _ :: _, [] => false
+  end.
+
+Definition delays_agree (rcfg : Z * Z) (script : list attempt_result) (waits ds : list Z) : bool :=
+  if snd rcfg <? 0 then Nat.eqb (List.length waits) (List.length ds) && waits_ok (fst rcfg) (- snd rcfg) (pad script) waits
+  else zl_eqb waits ds.
+
 Definition agrees (c : case) : bool :=
   match c with
   | CaseHTTP _ script _ rcfg attempts instants status errcode bodies same vals dl readable both _ _ leak =>
-      let '(k, st, ec, ds) := http_expect rcfg script in
-      (attempts =? k) && (status =? st) && (errcode =? ec) && zl_eqb (diffs instants) ds
+      let '(k, st, ec, ds) := http_expect (if snd rcfg <? 0 then (fst rcfg, 0) else rcfg) script in
+      (attempts =? k) && (status =? st) && (errcode =? ec) && delays_agree rcfg script (diffs instants) ds
       && bodies && same && vals && dl && Bool.eqb readable (negb both || (status =? 0)) && negb leak
   | CaseBody _ kind size off is_err no_body ok =>
       match kind with
@@ -87,7 +101,7 @@ Definition agrees (c : case) : bool :=
 Definition checker18 (c : case) : bool :=
   match c with
   | CaseHTTP _ script _ rcfg attempts instants status errcode bodies same vals dl readable _ _ _ _ =>
-      let '(k, st, ec, ds) := http_expect rcfg script in
+      let '(k, st, ec, ds) := http_expect (if snd rcfg <? 0 then (fst rcfg, 0) else rcfg) script in
       (attempts =? k) && (status =? st) && (errcode =? ec)
       (* waits at least the Retry-After, whatever other delay is configured *)
       && forallb (fun p => snd p <=? fst p) (combine (diffs instants) (map retry_after_floor (pad script)))
